@@ -181,6 +181,10 @@ def glue_expect(ctx, art, line):
         szx, body = int(f[2]), int(f[3])
         # datagram transports: exponents 0..6; 7 is BERT (reliable transports only), above 7 is outside the codec's domain
         return "ok code=68 delivered=%d" % body if szx <= 6 else "err"
+    if f[0] == "szxpeer":
+        # stream transport: exponents 0..7 are in the domain (7 = BERT); anything above must be refused, whatever the peer's
+        # CSM announced (with or without Max-Message-Size)
+        return "err" if int(f[1]) > 7 else None
     if f[0] == "bert":
         rc, out, _ = common.pipe_lines([art["driver"], "spec"], ["buf 7 %s" % f[1]])
         if rc != 0 or not out or not out[0].isdigit():
@@ -195,6 +199,9 @@ def glue_lines(ctx):
     for t in ("udp", "dtls"):
         for szx in ([2, 6, 7, 8, 9, 15, 200] if ctx.tier == "quick" else [0, 1, 2, 3, 4, 5, 6, 7, 8, 9, 15, 16, 127, 200, 255]):
             L.append("cfgszx %s %d 3000" % (t, szx))
+    for szx in ([6, 7, 8, 9, 200] if ctx.tier == "quick" else [0, 5, 6, 7, 8, 9, 15, 16, 127, 200, 255]):
+        for pm in (0, 1152, 4096):
+            L.append("szxpeer %d %d 3000" % (szx, pm))
     for local in ([1152, 2048, 4096] if ctx.tier == "quick" else [1152, 2047, 2048, 2049, 3000, 4096, 65536]):
         L.append("bert %d 1048576 10240" % local)
     return L
@@ -220,7 +227,7 @@ def glue(ctx, art):
             continue
         want = glue_expect(ctx, art, l)
         if want is not None and o != want:
-            clause = "refused-outside-domain" if l.startswith("cfgszx") else "bert-bounded-by-max-message-size"
+            clause = "refused-outside-domain" if l.startswith(("cfgszx", "szxpeer")) else "bert-bounded-by-max-message-size"
             ctx.violations.append(common.Violation(clause, "C19:glue:" + " ".join(l.split()[:2]), "%s: observed `%s`, expected `%s`" % (l, o, want),
                                                    {"input": [l], "observed": o, "expected": want, "glue": True}))
 
